@@ -1,6 +1,7 @@
 package main
 
 import (
+	"context"
 	"fmt"
 
 	z80 "github.com/koron-go/z80"
@@ -467,3 +468,5 @@ func fmtPorts(a []obs.PortAccess) string {
 func cloneStrings(d []string) []string { return append([]string{}, d...) }
 
 func obsBackground(c *Ctx) *[65536]uint8 { return obs.NewBackground(c.Salt) }
+
+var bgCtx = context.Background()
